@@ -197,6 +197,10 @@ func (s *sim) oracle(kind string, g int, n int64, res string, b, a snapshot, met
 	if kind == "ackcrash" {
 		kind = "ack" // the Ack itself is judged as any other; the image is judged in doAckCrash
 	}
+	if kind == "syncreset" {
+		kind = "setapp" // Sync ‖ index reset: the reset is ordered after the Sync that was in flight
+	}
+	syncInside := kind == "acksync" || kind == "syncack" // an Ack and Sync(s) in one operation
 	// (4)
 	if a.ack > a.app {
 		s.fail("queue-ack-above-appended", "after %s: queue ack %d > appended %d", kind, a.ack, a.app)
@@ -205,7 +209,7 @@ func (s *sim) oracle(kind string, g int, n int64, res string, b, a snapshot, met
 		if a.ack < b.ack {
 			s.fail("queue-ack-moved-back-by-"+kind, "queue ack %d -> %d", b.ack, a.ack)
 		}
-		if a.ack != b.ack && kind != "sync" && kind != "createsync" && kind != "expire" && kind != "race2" {
+		if a.ack != b.ack && kind != "sync" && kind != "createsync" && kind != "expire" && kind != "race2" && !syncInside {
 			s.fail("queue-ack-moved-by-"+kind, "queue ack %d -> %d", b.ack, a.ack)
 		}
 		if kind == "createsync" && a.ack != b.ack {
@@ -213,6 +217,15 @@ func (s *sim) oracle(kind string, g int, n int64, res string, b, a snapshot, met
 			for id, p := range a.g {
 				if a.ack > p.a {
 					s.fail("sync-queue-ack-above-group-ack", "Sync concurrent with the creation of group %d moved the queue ack to %d, group %d has ack %d", g, a.ack, id, p.a)
+				}
+			}
+		}
+		if syncInside && a.ack != b.ack {
+			// the Sync ran when the addressed group had already published its new position; every
+			// other group stood still
+			for id, p := range a.g {
+				if a.ack > p.a {
+					s.fail("sync-queue-ack-above-group-ack", "%s on group %d moved the queue ack to %d, group %d has ack %d", kind, g, a.ack, id, p.a)
 				}
 			}
 		}
@@ -369,6 +382,22 @@ func (s *sim) oracle(kind string, g int, n int64, res string, b, a snapshot, met
 			}
 		} else if ap != bp || a.ack != b.ack || a.app != b.app {
 			s.fail("ack-outside-window-not-ignored", "ack %d on %v gave %v", n, bp, ap)
+		}
+	case "ackfault", "acksync", "syncack":
+		// (3) with an msync in flight or failing: outside the window nothing changes; inside, the
+		// consumed position stays and the acknowledged one is n (a failing msync is only logged by the
+		// pinned source; whether the position counts as acknowledged then is not part of the property,
+		// so bp.a is accepted as well — what must hold is that memory and meta page agree, judged at
+		// the next reopen, and that a published position is not taken back, judged inside the op)
+		if !live {
+			break
+		}
+		if n >= bp.a && n <= bp.c {
+			if ap.c != bp.c || (ap.a != n && !(kind == "ackfault" && ap.a == bp.a)) {
+				s.fail("ack-inside-window-not-applied", "%s %d on %v gave %v", kind, n, bp, ap)
+			}
+		} else if ap != bp {
+			s.fail("ack-outside-window-not-ignored", "%s %d on %v gave %v", kind, n, bp, ap)
 		}
 	case "setc":
 		if live && (ap.c != n || ap.a != bp.a) {
@@ -1421,7 +1450,11 @@ func (s *sim) caseLazyFixed(rng *rand.Rand) {
 // scratch returns a fresh scratch directory; cases that write whole data pages prefer a
 // memory-backed file system when there is one.
 func scratch(big bool) (string, error) {
-	if big {
+	// every case lives on the memory-backed file system when there is one with room: the queue
+	// msyncs a page on every Ack / Sync, which on a disk costs 80 % of the area's run time (and far
+	// more on a loaded machine). What reaches the disk is C05's subject, not C06's.
+	_ = big
+	{
 		var fs syscall.Statfs_t
 		if st, err := os.Stat("/dev/shm"); err == nil && st.IsDir() && syscall.Statfs("/dev/shm", &fs) == nil && uint64(fs.Bavail)*uint64(fs.Bsize) >= 2<<30 {
 			if d, err := os.MkdirTemp("/dev/shm", "lvh-c06-*"); err == nil {
@@ -1486,6 +1519,10 @@ func (a area) Run(c *core.Ctx) error {
 				s.caseRound8Fixed(rng)
 			case "round8":
 				s.caseRound8Random(rng)
+			case "msync-fixed":
+				s.caseMsyncFixed(rng)
+			case "msync":
+				s.caseMsyncRandom(rng)
 			case "lazy-fixed":
 				s.caseLazyFixed(rng)
 			case "fault-fixed":
@@ -1534,6 +1571,8 @@ func caseKind(i int, tier string, rng *rand.Rand) string {
 		return "fault-fixed"
 	case 11:
 		return "round8-fixed"
+	case 12:
+		return "msync-fixed"
 	}
 	if tier == "thorough" && i%40 == 7 {
 		return "pages"
@@ -1545,7 +1584,9 @@ func caseKind(i int, tier string, rng *rand.Rand) string {
 		return "race"
 	case r < 28:
 		return "round8"
-	case r < 55:
+	case r < 36:
+		return "msync"
+	case r < 58:
 		return "random"
 	case r < 70:
 		return "random-early-groups" // all groups created before the first append, none stopped
